@@ -131,12 +131,22 @@ def takeIf (p : Tlv → Option α) : List Tlv → Option α × List Tlv
   | [] => (none, [])
   | t :: r => match p t with | some a => (some a, r) | none => (none, t :: r)
 
+/-! element decoders, named so that theorems can refer to them -/
+def decOidT : Tlv → Option (List Nat) | .prim 0x06 o => decOid o | _ => none
+def decIa5T : Tlv → Option String | .prim 0x16 b => bytesStr b | _ => none
+def decDirString : Tlv → Option String | .prim 0x0c b => bytesStr b | .prim 0x13 b => bytesStr b | _ => none
+def decPrintableT : Tlv → Option String | .prim 0x13 b => bytesStr b | _ => none
+def decOctetsT : Tlv → Option Bytes | .prim 0x04 b => some b | _ => none
+def decSeqOf (f : Tlv → Option α) : Tlv → Option (List α) | .cons 0x30 xs => xs.mapM f | _ => none
+def decExplicit0 (f : Tlv → Option α) : Tlv → Option α | .cons 0xa0 [n] => f n | _ => none
+def decExplicit1 (f : Tlv → Option α) : Tlv → Option α | .cons 0xa1 [n] => f n | _ => none
+
 /-- NamingAuthority ::= SEQUENCE { namingAuthorityId OID OPTIONAL, namingAuthorityUrl IA5String OPTIONAL, namingAuthorityText DirectoryString OPTIONAL } -/
 def decNamingAuthority : Tlv → Option Cert.NamingAuthority
   | .cons 0x30 fs =>
-    let (oid, r1) := takeIf (fun | .prim 0x06 o => decOid o | _ => none) fs
-    let (url, r2) := takeIf (fun | .prim 0x16 b => bytesStr b | _ => none) r1
-    let (txt, r3) := takeIf (fun | .prim 0x0c b => bytesStr b | .prim 0x13 b => bytesStr b | _ => none) r2
+    let (oid, r1) := takeIf decOidT fs
+    let (url, r2) := takeIf decIa5T r1
+    let (txt, r3) := takeIf decDirString r2
     if r3.isEmpty then some ⟨oid.getD [], url.getD "", txt.getD ""⟩ else none
   | _ => none
 
@@ -144,19 +154,19 @@ def decNamingAuthority : Tlv → Option Cert.NamingAuthority
     professionOIDs SEQUENCE OF OID OPTIONAL, registrationNumber PrintableString OPTIONAL, addProfessionInfo OCTET STRING OPTIONAL } -/
 def decProfessionInfo : Tlv → Option Cert.ProfessionInfo
   | .cons 0x30 fs =>
-    let (na, r1) := takeIf (fun | .cons 0xa0 [n] => decNamingAuthority n | _ => none) fs
+    let (na, r1) := takeIf (decExplicit0 decNamingAuthority) fs
     -- the first SEQUENCE holds strings (items) or, if there are no items, OIDs
-    let (items, r2) := takeIf (fun | .cons 0x30 xs => xs.mapM (fun | .prim 0x0c b => bytesStr b | .prim 0x13 b => bytesStr b | _ => none) | _ => none) r1
-    let (oids, r3) := takeIf (fun | .cons 0x30 xs => xs.mapM (fun | .prim 0x06 o => decOid o | _ => none) | _ => none) r2
-    let (reg, r4) := takeIf (fun | .prim 0x13 b => bytesStr b | _ => none) r3
-    let (add, r5) := takeIf (fun | .prim 0x04 b => some b | _ => none) r4
+    let (items, r2) := takeIf (decSeqOf decDirString) r1
+    let (oids, r3) := takeIf (decSeqOf decOidT) r2
+    let (reg, r4) := takeIf decPrintableT r3
+    let (add, r5) := takeIf decOctetsT r4
     if r5.isEmpty then some ⟨na.getD ⟨[], "", ""⟩, items.getD [], oids.getD [], reg.getD "", add.getD []⟩ else none
   | _ => none
 
 def decAdmissions : Tlv → Option Cert.Admissions
   | .cons 0x30 fs =>
-    let (auth, r1) := takeIf (fun | .cons 0xa0 [g] => decGeneralName g | _ => none) fs
-    let (na, r2) := takeIf (fun | .cons 0xa1 [n] => decNamingAuthority n | _ => none) r1
+    let (auth, r1) := takeIf (decExplicit0 decGeneralName) fs
+    let (na, r2) := takeIf (decExplicit1 decNamingAuthority) r1
     match r2 with
     | [] => some ⟨auth, na.getD ⟨[], "", ""⟩, []⟩
     | [.cons 0x30 pis] => (pis.mapM decProfessionInfo).map fun p => ⟨auth, na.getD ⟨[], "", ""⟩, p⟩
